@@ -114,6 +114,10 @@ def run(chk):
     r4(chk, f)
     r5(chk)
     r6(chk)
+    # R7: "the data later used for that contest's assertions are exactly those n_c cards in that order": the consumer of the
+    # threshold keeps a card iff its sample number is within the contest's threshold, position by position (C06.R4)
+    from . import c06
+    chk.borrow(c06.r4, {"C06.R4": "C07.R7"})
 
 
 def r1(chk, f):
